@@ -239,13 +239,21 @@ func fpText(m map[string]int) string {
 }
 
 func sameFP(a, b map[string]int) bool {
+	same := true
 	for _, k := range fpKeys {
 		if a[k] != b[k] {
-			return false
+			same = false
+			if d := b[k] - a[k]; d > maxDelta {
+				maxDelta = d
+			}
 		}
 	}
-	return true
+	return same
 }
+
+// maxDelta is the largest increase of a component seen in the case being
+// judged (bookkeeping only: histogram of how much of the slack is used).
+var maxDelta int
 
 // bounded is the verdict on one pair of footprints.
 func bounded(what string, n int, a, b map[string]int) string {
@@ -432,6 +440,7 @@ func replayCase(sub string, raw json.RawMessage) string {
 func judge(sub string, c progCase, classes ...string) string {
 	rec.Journal(sub, c)
 	rec.Eval()
+	maxDelta = 0
 	msg, inf := check(c)
 	if inf.Discard != "" {
 		rec.Discard(inf.Discard)
@@ -452,6 +461,16 @@ func judge(sub string, c progCase, classes ...string) string {
 			rec.Class(pre + "footprints/identical")
 		} else {
 			rec.Class(pre + "footprints/within-slack")
+			switch {
+			case maxDelta <= 0:
+				rec.Class("increase/none (a component is smaller at 8n)")
+			case maxDelta <= 4:
+				rec.Class("increase/1-4")
+			case maxDelta <= 16:
+				rec.Class("increase/5-16")
+			default:
+				rec.Class("increase/17-32")
+			}
 		}
 	} else {
 		rec.Class(pre + "short-run")
